@@ -714,6 +714,11 @@ def insertion_unit(res):
     return res
 
 
+def _run_dispatch():
+    from .c13 import run_dispatch_unit
+    return run_dispatch_unit
+
+
 def units(tier):
     us = [
         Unit("C20/_validate_measurement", validate_unit, "P", [(DBI, "_validate_measurement")]),
@@ -726,6 +731,7 @@ def units(tier):
         Unit("C20/_is_asmbench_measurement", measurement_line_unit, "P", [(DBI, "_is_asmbench_measurement")]),
         Unit("C20/insertion(set_instruction_entry, set_instruction, import loop)", insertion_unit, "P", [("osaca/semantics/hw_model.py", "MachineModel.set_instruction_entry"),
              ("osaca/semantics/hw_model.py", "MachineModel.set_instruction"), (DBI, "import_benchmark_output")]),
+        Unit("C20/run+import_data(dispatch to the reader of the benchmark kind)", _run_dispatch(), "P", [("osaca/osaca.py", "run"), ("osaca/osaca.py", "import_data")], decisive=False),
         bounded_unit("C20/import-end-to-end", "c20_import", [(DBI, "_get_ibench_output"), (DBI, "_get_asmbench_output"),
                      (DBI, "import_benchmark_output"), ("osaca/semantics/hw_model.py", "MachineModel.set_instruction_entry"),
                      ("osaca/semantics/hw_model.py", "MachineModel.dump")], timeout=1200),
